@@ -115,3 +115,67 @@ Proof.
   intros W N NF. rewrite (mz_run_obj_i_spec t c s om ts i name k zp N).
   eapply mz_oracle_zp_accepts; eauto.
 Qed.
+
+(* ---------------------------------------------------------------- which objects changed *)
+Lemma mz_oracle_core_applied t c s m k o :
+  mz_oracle_core t c s m (Some k) o = 0 -> mz_applied o = true ->
+  mz_placed_b t c m && mz_zoned_b s && negb (mz_entitled_b t c s m k) = false \/ mz_effectful k = false.
+Proof.
+  unfold mz_oracle_core. intros H A. rewrite A in H. cbn [negb orb] in H.
+  destruct (mz_dropped o); cbn [andb] in H; [discriminate|].
+  destruct (mz_rlp o && negb (mz_is_some (mz_ep s))); [discriminate|].
+  destruct (mz_effectful k); cbn [negb] in H; [|discriminate].
+  destruct (mz_placed_b t c m && mz_zoned_b s && negb (mz_entitled_b t c s m k)); [discriminate|auto].
+Qed.
+
+Lemma mz_with_zone_id m : mz_with_zone m (mz_objzone m) = m.
+Proof. destruct m; reflexivity. Qed.
+
+(* the changed-objects oracle accepts what the model says changed *)
+Lemma mz_oracle_changed_accepts t c s om ts i name k zp :
+  mz_wf t -> nth_error mz_class_table i = Some (name, k) -> mz_effectful k = true ->
+  (forall r, mz_lookup name = Some r -> ~ mz_finding_anon_cert s r) ->
+  mz_oracle_changed_i t c s (mz_om om) i (mz_changed_zones (mz_run_obj_i t c s om ts i zp) om) = 0.
+Proof.
+  intros W N EF NF. pose proof (mz_oracle_obj_accepts t c s om ts i name k zp W N NF) as O.
+  unfold mz_oracle_changed_i, mz_changed_zones. unfold mz_oracle_i in O.
+  rewrite mz_irows_eq in *. rewrite (map_nth_error mz_irow_of _ _ N) in *. unfold mz_irow_of in *; cbn [fst snd] in *.
+  destruct (mz_applied (mz_run_obj_i t c s om ts i zp)) eqn:A; [|reflexivity].
+  cbn [existsb]. rewrite mz_with_zone_id. rewrite orb_false_r.
+  destruct (mz_oracle_core_applied _ _ _ _ _ _ O A) as [H|H]; [rewrite H; reflexivity|congruence].
+Qed.
+
+(* ---------------------------------------------------------------- unknown object type: inert *)
+Lemma mz_oracle_gate t c s m i o b : mz_oracle_i t c s m i o = 0 -> mz_oracle_i t c s m i (mz_gate o b) = 0.
+Proof.
+  destruct b.
+  - unfold mz_gate. rewrite andb_true_r. destruct o; auto.
+  - unfold mz_gate. rewrite andb_false_r. unfold mz_oracle_i, mz_oracle_core. cbn [mz_dropped mz_rlp mz_applied].
+    destruct o as [d r a]; cbn [mz_dropped mz_rlp mz_applied]. rewrite orb_false_l.
+    destruct d, r, a; cbn; try reflexivity; try discriminate;
+      destruct (mz_is_some (mz_ep s)); cbn; try reflexivity; try discriminate.
+Qed.
+
+Lemma mz_run_objk_unknown t c s om ts i zp : mz_applied (mz_run_objk_i t c s om ts i zp false) = false.
+Proof. unfold mz_run_objk_i, mz_gate. cbn. apply andb_false_r. Qed.
+
+Lemma mz_oracle_objk_accepts t c s om ts i name k zp known :
+  mz_wf t -> nth_error mz_class_table i = Some (name, k) ->
+  (forall r, mz_lookup name = Some r -> ~ mz_finding_anon_cert s r) ->
+  mz_oracle_i t c s (mz_om om) i (mz_run_objk_i t c s om ts i zp known) = 0.
+Proof. intros W N NF. apply mz_oracle_gate. eapply mz_oracle_obj_accepts; eauto. Qed.
+
+Lemma mz_oracle_changed_k_accepts t c s om ts i name k zp known :
+  mz_wf t -> nth_error mz_class_table i = Some (name, k) -> mz_effectful k = true ->
+  (forall r, mz_lookup name = Some r -> ~ mz_finding_anon_cert s r) ->
+  mz_oracle_changed_i t c s (mz_om om) i (mz_changed_zones (mz_run_objk_i t c s om ts i zp known) om) = 0.
+Proof.
+  intros W N EF NF. destruct known.
+  - unfold mz_run_objk_i, mz_gate. rewrite andb_true_r.
+    replace {| mz_dropped := mz_dropped (mz_run_obj_i t c s om ts i zp); mz_rlp := mz_rlp (mz_run_obj_i t c s om ts i zp);
+               mz_applied := mz_applied (mz_run_obj_i t c s om ts i zp) |} with (mz_run_obj_i t c s om ts i zp)
+      by (destruct (mz_run_obj_i t c s om ts i zp); reflexivity).
+    eapply mz_oracle_changed_accepts; eauto.
+  - unfold mz_changed_zones. rewrite mz_run_objk_unknown. unfold mz_oracle_changed_i.
+    rewrite mz_irows_eq. rewrite (map_nth_error mz_irow_of _ _ N). reflexivity.
+Qed.
